@@ -204,6 +204,23 @@ def run(ctx, out):
         ys = P.from_yaml_all(io.StringIO(multi))
         if ys != [P(i, f'n{i}') for i in range(4)]:
             out.violation('C19:yaml_all', f'from_yaml_all returned {ys!r} for 4 documents', {})
+        # one value per document, also for null / empty documents and through files
+        import typing as t
+        n += 3
+        docs = [1, None, 3, None]
+        buf = io.StringIO()
+        for dv in docs:
+            pio.write_yaml(dv, buf, ty=t.Optional[int], explicit_start=True)
+        got = pio.from_yaml_all(io.StringIO(buf.getvalue()), t.Optional[int])
+        if got != docs:
+            out.violation('C19:yaml_all:null-documents', f'from_yaml_all returned {got!r} for the documents {docs!r} ({buf.getvalue()!r})', {'text': buf.getvalue()})
+        got = pio.from_yaml_all(io.StringIO('--- 1\n---\n--- 3\n'), t.Optional[int])
+        if got != [1, None, 3]:
+            out.violation('C19:yaml_all:empty-document', f'from_yaml_all returned {got!r} for three documents, the second empty', {})
+        pm = tmp / 'multi.yaml'
+        pm.write_text(multi, encoding='utf-8')
+        if P.from_yaml_all(pm) != [P(i, f'n{i}') for i in range(4)] or P.from_yaml_all(str(pm)) != [P(i, f'n{i}') for i in range(4)]:
+            out.violation('C19:yaml_all:path', 'from_yaml_all on a path did not return the four documents', {})
         bad = tmp / 'bad.json'
         bad.write_text('{"a": "not an int"}', encoding='utf-8')
         with OpenSpy() as spy:
